@@ -13,6 +13,7 @@ import (
 
 	"verif/checks/tutil"
 	"verif/engine/core"
+	"verif/ref/poolpoison"
 	"verif/ref/tbin"
 )
 
@@ -469,6 +470,9 @@ func enumEnvelopes(tier string, yield func(core.Case) bool) {
 		tbin.Bytes(tbin.Struct(tbin.F(1, tbin.I32v(7)))),
 		tbin.Bytes(g.Build(tbin.StructS(tbin.SF(1, tbin.ListS(tbin.Sc(tbin.STRING))), tbin.SF(2, tbin.MapS(tbin.Sc(tbin.I32), tbin.Sc(tbin.STRING)))), 2)),
 		tbin.Bytes(tbin.Struct(tbin.F(3, tbin.Struct(tbin.F(1, tbin.Struct()))))),
+		// bodies around and beyond the pooled protocol buffer (4096 bytes)
+		tbin.Bytes(tbin.Struct(tbin.F(1, tbin.Str(strings.Repeat("b", 4060))))),
+		tbin.Bytes(tbin.Struct(tbin.F(1, tbin.Str(strings.Repeat("B", 6000))))),
 	}
 	for _, name := range names {
 		for _, mt := range types {
@@ -496,6 +500,9 @@ func enumEnvelopes(tier string, yield func(core.Case) bool) {
 							}
 							if !bytes.Equal(w, ref) {
 								r.Add("envelope|wrap-bytes-differ", "got %s want %s", hex(w), hex(ref))
+							}
+							if poolpoison.Aliased(w) {
+								r.Add("envelope|wrapped-message-aliases-pooled-buffer", "the %d bytes returned by WrapBinaryBody change when the pooled protocol buffers are overwritten", len(w))
 							}
 							n2, t2, s2, id2, b2, err := thrift.UnwrapBinaryMessage(ref)
 							if err != nil || n2 != name || t2 != mt || s2 != seq || id2 != id || !bytes.Equal(b2, body) {
